@@ -367,3 +367,34 @@ def check_derivative_completeness(res, db: DB, force_entries, deriv_entry: str, 
           sample={"derivative": dk, "force": fk, "disabled": setbits, "integrator": integ},
         )
   return n
+
+
+def check_module_flags(res, sm, table, modules=None) -> int:
+  """R-FLAGS.6: no stage module consults an option flag that it does not consult on the confirmed tree (tables/
+  flag_tables.MODULE_FLAGS). MuJoCo's flags are scoped to stages; a stage that starts looking at another stage's flag
+  gives that flag a new effect (gravity compensation that reappears in qfrc_passive when ACTUATION is disabled, an
+  inverse-dynamics correction that is dropped when SPRING is disabled). Removals are R-DISPATCH's subject."""
+  from ..report import Finding
+
+  n = 0
+  for mod in sm.modules.values():
+    if mod.name.endswith("_test") or mod.name in ("types", "cli", "__pkg__"):
+      continue
+    if modules is not None and mod.name not in modules:
+      continue
+    allowed = set(table.get(mod.name, ()))
+    seen = {}
+    for node in ast.walk(mod.tree):
+      if isinstance(node, ast.Attribute):
+        v = node.value
+        cls = v.id if isinstance(v, ast.Name) else (v.attr if isinstance(v, ast.Attribute) else None)
+        if cls in ("DisableBit", "EnableBit"):
+          seen.setdefault(f"{cls}.{node.attr}", node.lineno)
+    for flag, ln in sorted(seen.items()):
+      n += 1
+      res.ob(
+        flag in allowed,
+        f"{mod.name}|consults|{flag}",
+        Finding("R-FLAGS.6", f"{mod.name}|{flag}|new-flag-consulted", f"{mod.name}.py now tests {flag}, which this stage does not consult on the confirmed tree (it consults {sorted(allowed) or 'no flags'}): the flag acquires an effect on this stage's outputs that MuJoCo's flag does not have", f"{mod.path}:{ln}"),
+      )
+  return n
